@@ -210,9 +210,16 @@ SetFlag(S, st) ==
   IN [S EXCEPT !.flag = st.f + (IF Len(st.mf) > 0 THEN 16 ELSE 0) + 256 * mac, !.mf = mf, !.hasmf = Len(st.mf) > 0,
                !.macs = macs, !.msets = IF Len(st.mf) = 0 \/ InS(mf, S.msets) THEN @ ELSE Append(@, mf)]
 
+Decl(S, st) ==          \* declarations (allowed at top level and inside blocks)
+  CASE st.k = "ls" -> [S EXCEPT !.ls = Append(@, <<st.s, st.l>>)]
+    [] st.k = "cls" -> [S EXCEPT !.cls = Append(@, <<st.n, st.gs>>)]
+    [] st.k = "mcls" -> [S EXCEPT !.mcls = Append(@, <<st.n, st.gs, st.a>>)]
+    [] st.k = "vr" -> [S EXCEPT !.vrs = Append(@, <<st.n, st.v>>)]
+    [] st.k = "gdef" -> [S EXCEPT !.gd = <<st.b, st.l, st.m>>]
 RECURSIVE Body(_, _, _)
 BStmt(S, st) ==
   CASE st.k = "flag" -> SetFlag(S, st)
+    [] st.k \in {"cls", "mcls", "vr"} -> Decl(S, st)
     [] st.k = "script" -> Script(S, st.s)
     [] st.k = "lang" -> Language(S, st.l, st.inc)
     [] st.k = "ref" -> Register([S EXCEPT !.cur = 0], NamedIdx(S, st.n))
@@ -221,11 +228,7 @@ BStmt(S, st) ==
 Body(S, body, i) == IF i > Len(body) THEN S ELSE Body(BStmt(S, body[i]), body, i + 1)
 
 Top(S, st) ==
-  CASE st.k = "ls" -> [S EXCEPT !.ls = Append(@, <<st.s, st.l>>)]
-    [] st.k = "cls" -> [S EXCEPT !.cls = Append(@, <<st.n, st.gs>>)]
-    [] st.k = "mcls" -> [S EXCEPT !.mcls = Append(@, <<st.n, st.gs, st.a>>)]
-    [] st.k = "vr" -> [S EXCEPT !.vrs = Append(@, <<st.n, st.v>>)]
-    [] st.k = "gdef" -> [S EXCEPT !.gd = <<st.b, st.l, st.m>>]
+  CASE st.k \in {"ls", "cls", "mcls", "vr", "gdef"} -> Decl(S, st)
     [] st.k = "lookup" -> LET S1 == Body([S EXCEPT !.cur = 0, !.blk = st.n, !.flag = 0, !.mf = <<>>, !.hasmf = FALSE, !.tag = ""], st.body, 1)
                           IN [S1 EXCEPT !.cur = 0, !.blk = 0, !.flag = 0, !.mf = <<>>, !.hasmf = FALSE]
     [] st.k = "feature" -> LET S1 == Body([S EXCEPT !.cur = 0, !.flag = 0, !.mf = <<>>, !.hasmf = FALSE, !.tag = st.t, !.feats = <<>>,
